@@ -2,13 +2,21 @@
 """Writes MANIFEST.json from the table below (kept in one place so it stays valid)."""
 import json, os
 ROOT = os.path.dirname(os.path.dirname(os.path.dirname(os.path.abspath(__file__))))
-import importlib.util
+import importlib, importlib.util
 spec = importlib.util.spec_from_file_location("claims", os.path.join(ROOT, "tools/scripts/claims.py"))
 claims = importlib.util.module_from_spec(spec); spec.loader.exec_module(claims)
+import sys
+sys.path.insert(0, os.path.join(ROOT, "tools/runner"))
 ALL = ["C%02d" % i for i in range(1, 21)]
+CLAIMS = {}
+for pid in ALL:
+    if os.path.exists(os.path.join(ROOT, "tools/runner/props", pid.lower() + ".py")):
+        mod = importlib.import_module("props." + pid.lower())
+        if getattr(mod, "CLAIM", None):
+            CLAIMS[pid] = mod.CLAIM
 checks = []
 for pid in ALL:
-    c = claims.CLAIMS.get(pid)
+    c = CLAIMS.get(pid)
     if not c:
         continue
     checks.append({
@@ -22,7 +30,7 @@ for pid in ALL:
         "level_note": c["note"],
         "technique": c["technique"],
     })
-na = [{"property_id": pid, "reason": claims.NOT_YET.get(pid, "check not built yet in this development; no claim is made")} for pid in ALL if pid not in claims.CLAIMS]
+na = [{"property_id": pid, "reason": claims.NOT_YET.get(pid, "check not built yet in this development; no claim is made")} for pid in ALL if pid not in CLAIMS]
 m = {
     "version": 1,
     "setup_cmd": "./check --setup",
